@@ -92,6 +92,9 @@ def build_text(p):
     t.append("~ASCII")
     for g in data_groups(p):
         t.append(" " + "  ".join(g))
+    if p.get("tail") == "P":
+        # the data section is not the last one: a ~Parameter section follows it
+        t += ["~Parameter", "RUN .   1 : run number"]
     return "\n".join(t) + "\n"
 
 
@@ -108,13 +111,13 @@ def klass_of(p):
     d, c, r = p["d"], p["c"], p["r"]
     cmp_ = "c<d" if c < d else ("c=d" if c == d else "c>d")
     return ("wrap=%s;layout=%s;uniform=%d;%s;d0=%d;csec=%d;c1=%d;r1=%d;hyphen_every_line=%d;"
-            "lines>%d=%d;engine=%s"
+            "lines>%d=%d;engine=%s%s"
             % (p["wrap"], p["layout"], uniform, cmp_, d == 0, p["csec"], c == 1, r == 1, hyph,
-               SNIFF_LINES, len(groups) > SNIFF_LINES, p["engine"]))
+               SNIFF_LINES, len(groups) > SNIFF_LINES, p["engine"], ";A=before-P" if p.get("tail") == "P" else ""))
 
 
 def key_of(p):
-    return (p["wrap"], p["layout"], p["d"], p["c"], p["r"], p["sign"], p["csec"], p["engine"])
+    return (p["wrap"], p["layout"], p["d"], p["c"], p["r"], p["sign"], p["csec"], p["engine"], p.get("tail", ""))
 
 
 # ----------------------------------------------------------------------------
@@ -245,6 +248,8 @@ def build_run(tier, seed):
               "for d = 0 both an empty ~Curves section and no ~Curves section" % (SIGNS, ENGINES, WRAPPED_LAYOUTS),
               "d in 0..5, c in 1..6, r in 1..%d enumerated completely%s" % (rmax, "" if thorough else "; plus a seeded sample of 600 cases with r in 5..25"))
     cases = list(space(range(1, rmax + 1)))
+    # the same grid (unwrapped, first sign pattern) with ~A followed by another section
+    cases += [dict(p, tail="P") for p in space(range(1, rmax + 1)) if p["wrap"] == "NO" and p["sign"] == SIGNS[0]]
     if not thorough:
         rnd = random.Random(seed)
         more = list(space(range(5, 26)))
